@@ -93,11 +93,20 @@ def sweep(C, tier):
                          {"op": "render_component", "name": "outer", "auto": flag, "body": "b", "expect_ae": flag}]
                 jobs.append({"cfg": {"autoescape": [".html"]}, "ctx": {"p": val}, "steps": steps})
                 meta.append(("api", kind, "suffix%s flag=%s" % (sfx, flag), None))
+    # configuration path: a custom escape function that was set and then reset leaves the default escaper in charge
+    for route in ROUTES[:12]:
+        for escfg in ("brackets-then-reset", "brackets"):
+            jobs.append({"cfg": {"autoescape": [".html"], "escape": escfg}, "ctx": {"v": SP + "&"}, "steps": [{"op": "add", "tpls": lib(".html") + [["t.html", route]]}, {"op": "render", "name": "t.html", "expect_ae": True}]})
+            meta.append((route, "string", "escaper " + escfg, True if escfg.endswith("reset") else "brackets"))
     res = vp.traced(jobs, C, "c01-sweep", timeout=1800)
     for (route, kind, mode, on), rr, job in zip(meta, res, jobs):
         for k, x in enumerate(rr[1:], 1):
             C.count()
             st = job["steps"][k]
+            if on == "brackets":        # the custom escaper writes [lt] / [amp] and leaves the rest: neither < nor & may remain
+                if x.get("ok") and ("<" in x.get("out", "") or "&" in x.get("out", "")):
+                    C.violation({"kind": "sweep-custom-escaper", "route": route}, "custom escape function: %r writes %r" % (route, x.get("out")), {"job": job})
+                continue
             eff = on if on is not None else st["expect_ae"]
             key = {"kind": "sweep", "route": route, "value": kind, "mode": mode, "op": st["op"]}
             if x.get("panic") or x.get("abort"):
